@@ -178,3 +178,24 @@ pub fn alpha_rename(b: &mut syn::Block, rules: &mut Rules) {
     }
     A { rules }.visit_block_mut(b);
 }
+
+// remove `log::*!(..)` statements (rule D4) - used for shape comparison
+pub fn strip_logging(b: &mut syn::Block) {
+    struct L;
+    impl VisitMut for L {
+        fn visit_block_mut(&mut self, b: &mut syn::Block) {
+            b.stmts.retain(|s| !matches!(s, syn::Stmt::Macro(m) if m.mac.path.to_token_stream().to_string().starts_with("log ::")));
+            visit_mut::visit_block_mut(self, b);
+        }
+    }
+    L.visit_block_mut(b);
+}
+
+pub fn alpha_rename_sig(sig: &mut syn::Signature, rules: &mut Rules) {
+    for a in sig.inputs.iter_mut() {
+        if let syn::FnArg::Typed(pt) = a { if let syn::Pat::Ident(pi) = &mut *pt.pat {
+            let s = pi.ident.to_string();
+            if s == "int" || s == "nat" { pi.ident = syn::Ident::new(&format!("{}_", s), pi.ident.span()); *rules.renamed.entry(s).or_default() += 1; }
+        } }
+    }
+}
